@@ -86,6 +86,13 @@ class Tree(object):
                 c = self.tbl.add(D.gen_imm(r, r.choice(["CHK", "LIT", "DIR2-LIT"]))) if r.random() < 0.7 else self.tbl.add(D.gen_other(r))
                 w, ro = None, (c.s if c.cls == "imm" else r.choice([b"", D.RO, D.IMM]) + c.s)
                 n = self.nm.create_from_cap(w, ro, deep_immutable=True)
+            elif r.random() < 0.15:
+                # an attachment the writer's node maker must refuse: prefix ro./imm. in front of a write-capable cap
+                w, ro, label, secret = D.gen_contradictory_caps(r, self.tbl)
+                n = self.nm.create_from_cap(w, ro)
+                self.ctx.count("contradictory-attach:" + ("refused" if getattr(n, "error", None) is not None else "ACCEPTED"))
+                if getattr(n, "error", None) is None:
+                    self.write_caps.add(secret)      # it went into the tree: no reader may ever see this write cap
             else:
                 w, ro, label = D.gen_child_caps(r, self.tbl, allow_odd=False)
                 n = self.nm.create_from_cap(w, ro)
@@ -363,9 +370,17 @@ def flat_case(ctx, i, terms, info):
     n_kids = r.choice([1, 2, 3, 4, 4, 8, 20, 40])
     kids = {}
     spec = []
+    extra_secrets = []
     for _ in range(n_kids):
-        w, ro, label = D.gen_child_caps(r, tbl, allow_odd=False)
-        n = nm.create_from_cap(w, ro)
+        if r.random() < 0.12:
+            w, ro, label, secret = D.gen_contradictory_caps(r, tbl)
+            n = nm.create_from_cap(w, ro)
+            ctx.count("contradictory-attach:" + ("refused" if getattr(n, "error", None) is not None else "ACCEPTED"))
+            if getattr(n, "error", None) is None:
+                extra_secrets += secrets_of(secret)
+        else:
+            w, ro, label = D.gen_child_caps(r, tbl, allow_odd=False)
+            n = nm.create_from_cap(w, ro)
         if getattr(n, "error", None) is not None:
             continue
         name = D.nfc(D.gen_name(r))
@@ -383,7 +398,7 @@ def flat_case(ctx, i, terms, info):
     if set(children) != set(kids):
         ctx.oracle_fail("readonly-listing-loses-children", "children differ when the directory is read through its read cap", case=case,
                         expected=sorted(kids), observed=sorted(children))
-    secrets = []
+    secrets = list(extra_secrets)
     for name in have_rw:
         secrets += secrets_of(kids[name][0].get_write_uri())
     for name, (n, md) in children.items():
